@@ -23,7 +23,7 @@ type Stage struct {
 	Num      int
 	Depth    int
 	Timeout  time.Duration
-	MaxKeep  int // keep at most this many traces (reservoir-sampled with the seed); 0 = all
+	MaxKeep  int    // keep at most this many traces (reservoir-sampled with the seed); 0 = all
 	LastIs   string // if set, keep only behaviours whose last action has this name
 }
 
